@@ -11,7 +11,7 @@ PROPERTY_ID = "C13"
 TECHNIQUE = 'property-based testing (Hypothesis) of conservation laws (validity predicates over the outputs) with boundary-weighted generators'
 RULE = (
     "Lists of 0..8 opaque circuits with sample counts 1..10^6 (at most 300 copies per circuit; boundaries k*max, k*max+-1 "
-    "over-weighted) and maxima 1..10^4; synthetic per-copy count dictionaries / bitstring lists; batch "
+    "over-weighted) and maxima 1..10^4, one case in eight with counts and maxima of 2^40..2^76 (beyond exact double range, <= 40 copies); synthetic per-copy count dictionaries / bitstring lists; batch "
     "sizes 1..5; distributions with 1..8 outcomes (zero-probability outcomes included) and shot "
     "numbers 1..200 with a drawn numpy seed; positive weight lists of mixed magnitude with totals "
     "0..10^4. Oracle: conservation laws computed in pure Python (per-circuit sums, order, bounds, "
@@ -26,11 +26,21 @@ ASSUMPTIONS = [
 
 @st.composite
 def expand_cases(draw, tier):
-    mx = draw(st.one_of(st.sampled_from([1, 2, 3, 7, 10, 100, 1000, 8192]), st.integers(1, 10 ** 4)))
+    huge = draw(st.integers(0, 7)) == 0
+    if huge:
+        # counts and maxima beyond the range in which doubles represent integers exactly (2**53); still only a few copies per circuit
+        mx = draw(st.one_of(st.sampled_from([2 ** 52, 2 ** 53, 2 ** 53 + 1, 10 ** 16, 10 ** 18 + 9, 2 ** 64]), st.integers(2 ** 40, 2 ** 70)))
+    else:
+        mx = draw(st.one_of(st.sampled_from([1, 2, 3, 7, 10, 100, 1000, 8192]), st.integers(1, 10 ** 4)))
     k = draw(st.integers(0, 8))
     ns = []
     for _ in range(k):
         m = draw(st.integers(0, 5))
+        if huge:
+            m = draw(st.integers(0, 40))
+            ns.append(max(1, draw(st.one_of(st.sampled_from([mx, mx + 1, mx - 1, m * mx, m * mx + 1, m * mx - 1, 2 ** 53 + 1]),
+                                            st.integers(1, 40 * mx)))))
+            continue
         ns.append(max(1, draw(st.one_of(st.sampled_from([1, mx, mx + 1, mx - 1, m * mx, m * mx + 1, m * mx - 1]),
                                         st.integers(1, 5 * mx), st.integers(1, min(10 ** 6, 300 * mx))))))
     return {"mx": mx, "ns": ns, "bsz": draw(st.integers(1, 5)), "wrong": draw(st.integers(-2, 2)),
@@ -127,6 +137,8 @@ def o_expand(spec):
     cl.append("results:" + kind)
     if k > bsz and k % bsz:
         cl.append("ragged_last_batch")
+    if any(n > 2 ** 53 for n in ns):
+        cl.append("count_above_2^53")
     return {"classes": cl, "nontrivial": nt}
 
 
@@ -226,7 +238,7 @@ SUBCHECKS = [
     SubCheck("scale_and_discretize", o_disc, strategy=disc_cases, examples=(3000, 20000), shards=(2, 8),
              rule="integers summing to the total, each within one of its share"),
 ]
-SUBCHECKS[0].expected_classes = ["exact_multiple", "remainder", "below_max", "empty", "ragged_last_batch"]
+SUBCHECKS[0].expected_classes = ["exact_multiple", "remainder", "below_max", "empty", "ragged_last_batch", "count_above_2^53"]
 SUBCHECKS[1].expected_classes = ["top_up_needed", "exact", "zero_probability_outcome", "eliminate>=2", "top_up>=2"]
 
 
